@@ -410,13 +410,16 @@ def kidOfElements (toks : List Tok) : Option (List KidInfo) :=
     | some kid, some (some cs) => some [⟨kid, some cs, (elemText algidName toks).map unescape⟩]
     | _, _ => none
 
+/-- the `version` attribute of a `<WRMHEADER …>` tag -/
+def versionOf : Tok → Option Text
+  | .tag b => if tagName b = wrmheaderName then attrLookup versionName (attrs b) else none
+  | .text _ => none
+
 /-- the reader: version attribute of `<WRMHEADER …>`, key ids with checksum and algorithm,
 licence URL (entity-decoded).  `none`: a base64 value does not decode. -/
 def parseWrmHeader (t : Text) : Option WrmInfo :=
   let toks := tokenize t
-  let version := (toks.findSome? fun
-    | .tag b => if tagName b = wrmheaderName then attrLookup versionName (attrs b) else none
-    | .text _ => none)
+  let version := toks.findSome? versionOf
   let tagged := toks.filterMap kidOfTag
   let kids := if tagged.isEmpty then kidOfElements toks else allSome tagged
   match kids with
